@@ -731,6 +731,12 @@ def run(tier, seed):
                [{"hist": [["d", C("d")], ["t", 2], ["d", C("y")], ["t", 5], ["u", C("d")], ["t", 2], ["u", C("y")], ["t", 20]],
                  "points": "end", "ks": [1, K_LONG, 9000, K_HUGE], "conts": [[["d", C("1")], ["t", 3], ["u", C("1")]]],
                  "tail": 40}], "zippy-reproducer")
+        # directed history of the repaired chords-v2 finding (7d8a52c): tap c in one ms, min-idle window, then d + release c
+        cv = [r for r in RICH if r[0] == "chordsv2"][0]
+        pr.add(cv[1], cv[2],
+               [{"hist": [["d", C("c")], ["u", C("c")], ["t", 20]], "points": "firstlast", "ks": [1, 2, 26],
+                 "conts": [[["d", C("d")], ["u", C("c")]], [["d", C("d")], ["u", C("d")]], [["d", C("a")], ["d", C("b")]]],
+                 "tail": 60}], "chv2-min-idle-edge")
         pr.record("rich")
         judges.append(pr)
         pr = Pairs(res, wd)
